@@ -660,6 +660,9 @@ func TestVerifC09(t *testing.T) {
 			c09StartupCancel(out)
 			c09EnvResponses(out)
 		}
+		if strings.Contains(string(b), "pipe-script ") {
+			c09PipeMessages(out)
+		}
 		return
 	}
 	// A schedule that deadlocks costs the 10 s of the step watchdog and leaves its goroutines behind; the
@@ -747,6 +750,7 @@ func TestVerifC09(t *testing.T) {
 	c09WorkersSurviveBadInput(out)
 	c09StartupCancel(out)
 	c09EnvResponses(out)
+	c09PipeMessages(out)
 }
 
 // runC09Random runs one uniformly random schedule (chosen step by step among runnable threads).
